@@ -653,13 +653,21 @@ def gen_gate_case(rng, family, set_descs, idx):
         base_t = rng.choice([math.pi / 2, math.pi / 4, -math.pi / 2, 0.5, rng.uniform(-3, 3)])
         shifts = [0.0, 4 * math.pi, -4 * math.pi, 2 * math.pi, 8 * math.pi, math.pi]
         rest = gate_args("single_qubit_gate", rng)
+        # ... including pairs that are congruent EXACTLY in floating point: the reduced angle is computed from the large one
+        big = base_t + rng.choice(shifts[1:5])
+        period = rng.choice([4 * math.pi, 2 * math.pi])
+        exact = [big, math.fmod(big, period), math.remainder(big, period)]
+        shifts += [x - base_t for x in exact]
+        for x in (exact if rng.random() < 0.7 else []):
+            hist.append([g, "single_qubit_gate", dict(rest, theta=fl(x))])
         for _ in range(rng.randint(2, 6)):
             th = fl(base_t + rng.choice(shifts))
             if rng.random() < 0.75:
                 hist.append([g, "single_qubit_gate", dict(rest if rng.random() < 0.6 else gate_args("single_qubit_gate", rng), theta=th)])
             else:
                 hist.append([g, "CR", gate_args("CR", rng, theta=th)])
-        final = rng.choice([[g, "single_qubit_gate", dict(rest, theta=fl(base_t + rng.choice(shifts[1:])))],
+        final = rng.choice([[g, "single_qubit_gate", dict(rest, theta=fl(rng.choice(exact)))],
+                            [g, "single_qubit_gate", dict(rest, theta=fl(base_t + rng.choice(shifts[1:])))],
                             [g, "CR", gate_args("CR", rng, theta=fl(base_t + rng.choice(shifts[1:])))]])
     elif family == "signed-zero-theta":
         g = pick()
